@@ -14,9 +14,11 @@ from __future__ import annotations
 
 import itertools
 import logging
+import os
 import pickle  # noqa: S403
 import re
 import sys
+import tempfile
 import warnings
 from abc import abstractmethod
 from importlib.metadata import version
@@ -384,12 +386,20 @@ def perform_cached_doit(
     h = get_readable_hash(unevaluated_expr)
     filename = cache_directory / f"{h}.pkl"
     if filename.exists():
-        with open(filename, "rb") as f:
-            return pickle.load(f)  # noqa: S301
+        try:
+            with open(filename, "rb") as f:
+                cached = pickle.load(f)  # noqa: S301
+        except Exception:  # noqa: BLE001  # truncated or foreign file: recompute
+            cached = None
+        # the key can collide (equal str, equal hash): trust the file only if it holds this expression
+        if isinstance(cached, tuple) and len(cached) == 2 and cached[0] == unevaluated_expr:
+            return cached[1]
     _LOGGER.warning(
         f"Cached expression file {filename} not found, performing doit()..."
     )
     unfolded_expr = unevaluated_expr.doit()
-    with open(filename, "wb") as f:
-        pickle.dump(unfolded_expr, f)
+    fd, temp_filename = tempfile.mkstemp(dir=cache_directory, suffix=".tmp")
+    with os.fdopen(fd, "wb") as f:
+        pickle.dump((unevaluated_expr, unfolded_expr), f)
+    os.replace(temp_filename, filename)  # atomic: readers never see a partial file
     return unfolded_expr
